@@ -1858,3 +1858,184 @@ Example duplicate_store_fault_untags :
   run_fault (FWait 3 false) w1 (api c) = Some (mkWorld [(AObj 7, CData 7 1 1)] [], Exn EOSError) /\
   run_fault (FWait 0 false) w1 (api (CTag 1 7)) = Some (mkWorld [(AObj 7, CData 7 1 1)] [], Exn EOSError).
 Proof. vm_compute. repeat split; reflexivity. Qed.
+
+(* ================================================================================== *)
+(* 9. (F4) ONE-OFF faults in store_object                                              *)
+(* ================================================================================== *)
+
+Lemma nosite_write_chunks : forall t n, nosite (write_chunks t n).
+Proof.
+  induction n as [|n IH]; simpl; auto.
+  split; [reflexivity|]. intros x. destruct x; simpl; auto.
+Qed.
+
+Lemma rfs_write_chunks : forall t n st w,
+  rfs st w (write_chunks t n) =
+  match run_seq w (write_chunks t n) with Some (w', a) => Some (w', a, st) | None => None end.
+Proof. intros. apply rfs_nosite. apply nosite_write_chunks. Qed.
+
+Lemma rfs_peek : forall cls x st w,
+  rfs st w (peek cls x) = match run_seq w (peek cls x) with Some (w', r) => Some (w', r, st) | None => None end.
+Proof. reflexivity. Qed.
+
+Definition store_post (m : fmap) (p : pid) (b : cid) (M' : fmap) (R : outcome value) : Prop :=
+  match R with
+  | Val _ => True
+  | Exn _ =>
+      lookup (APidRef p) M' = None /\
+      (forall k, k <> b -> lookup (ACidRef k) M' = lookup (ACidRef k) m) /\
+      (forall l0, lookup (ACidRef b) M' = Some (CLines l0) -> ~ In p l0)
+  end.
+
+Ltac pre_fin Hc :=
+  eexists; eexists; eexists; split; [reflexivity|]; split; [lk; first [reflexivity|assumption]|];
+  split; [intros k Hk; lk; reflexivity|];
+  let l0 := fresh "l0" in let Hl := fresh "Hl" in
+  intros l0; lk; intros Hl; destruct (Hc _ Hl) as (? & E & Hm); inversion E; subst;
+  apply (proj1 (memb_false_not_In Nat.eqb nat_eqb_true Nat.eqb_refl _ _)); exact Hm.
+
+Lemma tag_done : forall m L p c,
+  lookup (APidRef p) m = None ->
+  (forall y, lookup (ACidRef c) m = Some y -> exists l, y = CLines l /\ memb Nat.eqb p l = false) ->
+  memb lock_eqb (LRefPid, IPid p) L = false -> memb lock_eqb (LCid, ICid c) L = false ->
+  memb lock_eqb (LFile, IDoc (ACidRef c)) L = false ->
+  exists M', run_seq (mkWorld m L) (tag_object p c) = Some (mkWorld M' L, Val tt).
+Proof.
+  intros m L p c Hp Hc HL1 HL2 HL3.
+  unfold tag_object, store_refs_body, and_sc, notm.
+  destruct (lookup (ACidRef c) m) as [y|] eqn:E.
+  - destruct (Hc y eq_refl) as (l & -> & Hm). run2. name_tmp. run2. eexists. reflexivity.
+  - run2. name_tmp. run2. name_tmp.
+    assert (Hne : Nat.eqb n n0 = false).
+    { destruct (Nat.eqb n n0) eqn:E2; auto. apply Nat.eqb_eq in E2. subst n0.
+      rewrite lookup_update_eq in Hab0. discriminate. }
+    assert (Hne' : Nat.eqb n0 n = false) by (rewrite Nat.eqb_sym; exact Hne).
+    repeat (run2; rewrite ?Hne, ?Hne'; cbn beta iota). eexists. reflexivity.
+Qed.
+
+Ltac use_tag_done Hc :=
+  match goal with
+  | |- context [run_seq (mkWorld ?M ?L0) (tag_object ?p ?c)] =>
+      let M' := fresh "M'" in let Ht := fresh "Ht" in
+      destruct (tag_done M L0 p c) as (M' & Ht);
+      [ lk; first [reflexivity|assumption]
+      | let y := fresh "y" in intros y; lk; apply Hc
+      | reflexivity | reflexivity | reflexivity
+      | rewrite Ht; fgo; eexists; eexists; eexists; split; [reflexivity|exact I] ]
+  end.
+
+Ltac use_tag Hc :=
+  match goal with
+  | |- context [rfs (FWait ?j false) (mkWorld ?M ?L0) (tag_object ?p ?c)] =>
+      let M' := fresh "M'" in let R := fresh "R" in let st' := fresh "st'" in
+      let Ht := fresh "Ht" in let Hobj := fresh "Hobj" in let Hpost := fresh "Hpost" in
+      destruct (tag_one_off M L0 p c j) as (M' & R & st' & Ht & Hobj & Hpost);
+      [ lk; first [reflexivity|assumption]
+      | let y := fresh "y" in intros y; lk; apply Hc
+      | reflexivity | reflexivity | reflexivity
+      | rewrite Ht; destruct R as [?|?]; fgo;
+        [ eexists; eexists; eexists; split; [reflexivity|exact I]
+        | destruct Hpost as (P1 & P2 & P3);
+          eexists; eexists; eexists; split; [reflexivity|];
+          split; [exact P1|]; split; [|exact P3];
+          let k := fresh "k" in let Hk := fresh "Hk" in
+          intros k Hk; rewrite (P2 k Hk); lk; reflexivity ] ]
+  end.
+
+Lemma store_one_off : forall m p b n j,
+  lookup (APidRef p) m = None ->
+  (forall y, lookup (ACidRef b) m = Some y -> exists l, y = CLines l /\ memb Nat.eqb p l = false) ->
+  exists M' R st',
+    rfs (FWait j false) (mkWorld m []) (store_object (Some p) SrcPath b n VSzNone VCkNone) =
+      Some (mkWorld M' [], R, st') /\ store_post m p b M' R.
+Proof.
+  intros m p b n j Hp Hc. unfold store_post, store_object.
+  rewrite rfs_mbind, rfs_peek. fgo.
+  unfold open_source, move_and_get_checksums. cbv zeta. fgo.
+  destruct j as [|j]; [fgo; pre_fin Hc|].
+  fgo. destruct j as [|j]; [fgo; pre_fin Hc|].
+  fgo2. rewrite rfs_write_chunks.
+  match goal with
+  | |- context [run_seq (mkWorld ?M ?L0) (write_chunks ?t _)] =>
+      destruct (run_write_chunks n t b n 0 M L0) as (m1 & Hr & Hm1); [apply lookup_update_eq|]
+  end.
+  rewrite Hr. cbn [Nat.add] in Hm1. fgo.
+  destruct (lookup (AObj b) m) as [o|] eqn:Ho; cbn [verify_object]; fgo.
+  - (* the object exists *)
+    destruct j as [|j]; [fgo; pre_fin Hc|]. fgo. use_tag Hc.
+  - (* the object is new *)
+    destruct j as [|j]; [fgo; pre_fin Hc|]. fgo.
+    destruct j as [|j].
+    + fgo. use_tag_done Hc.
+    + fgo. use_tag Hc.
+Qed.
+
+(* the retry: store_object from any well-typed store in which p has no reference *)
+Lemma store_object_total_n : forall m p d n, typed m -> lookup (APidRef p) m = None ->
+  (forall x, lookup (AObj d) m = Some x -> x = CData d n n) ->
+  exists m2, run_seq (mkWorld m []) (store_object (Some p) SrcPath d n VSzNone VCkNone) =
+               Some (mkWorld m2 [], Val (VMeta d n)) /\
+    lookup (APidRef p) m2 = Some (CCid d) /\
+    (exists l, lookup (ACidRef d) m2 = Some (CLines l) /\ memb Nat.eqb p l = true) /\
+    lookup (AObj d) m2 = Some (CData d n n).
+Proof.
+  intros m p d n Ht Hp Hsz. unfold store_object. steps.
+  match goal with
+  | |- context [run_seq (mkWorld m ?L0) (move_and_get_checksums _ _ _ _ _)] =>
+      destruct (run_mgc_gen p d n m L0) as (m1 & Hr & He); rewrite Hr
+  end. steps.
+  assert (Ht1 : typed m1).
+  { intros a v Hl. rewrite He in Hl. unfold obj_added, present in Hl.
+    destruct (lookup (AObj d) m) eqn:Ho; [apply Ht; exact Hl|].
+    rewrite lookup_update in Hl. destruct (addr_eqb a (AObj d)) eqn:E; [|apply Ht; exact Hl].
+    apply addr_eqb_true in E. subst. inversion Hl; subst. simpl. eauto. }
+  assert (Hp1 : lookup (APidRef p) m1 = None).
+  { rewrite He. unfold obj_added. destruct (present (AObj d) m); [exact Hp|].
+    rewrite lookup_update_neq by discriminate. exact Hp. }
+  assert (Ho1 : lookup (AObj d) m1 = Some (CData d n n)).
+  { rewrite He. unfold obj_added, present. destruct (lookup (AObj d) m) eqn:Ho.
+    - rewrite Ho. f_equal. apply Hsz. reflexivity.
+    - apply lookup_update_eq. }
+  match goal with
+  | |- context [run_seq (mkWorld m1 ?L0) (tag_object _ _)] =>
+      destruct (tag_object_total m1 L0 p d Ht1 Hp1 eq_refl eq_refl eq_refl) as (m2 & Hr2 & Q1 & Q2 & Q3);
+      rewrite Hr2
+  end. steps.
+  exists m2. split; [reflexivity|]. split; [exact Q1|]. split; [exact Q2|]. rewrite Q3. exact Ho1.
+Qed.
+
+(* (F4) for store_object(pid, new or duplicate content), every start state in which p is unbound,
+   every one-off fault: if the call raises, p is unbound — no reference, in no cid list — no lock
+   is left, and the same call issued again succeeds and p is then retrievable with its content *)
+Theorem store_one_off_fault : forall w0 p b n j w e,
+  let c := CStore (Some p) SrcPath b n VSzNone VCkNone in
+  Inv w0 -> lookup (APidRef p) (fs w0) = None -> call_size_ok w0 c ->
+  run_fault (FWait j false) w0 (api c) = Some (w, Exn e) ->
+  locks w = [] /\ unbound_and_retry c p w.
+Proof.
+  intros [m L] p b n j w e c HI Hp Hsz Hrun. pose proof HI as [(W & I1 & I2) HL].
+  simpl in HL, Hp. subst L.
+  assert (Hc1 : forall p', call_pid c = Some p' -> p' = p) by (intros p' H; inversion H; reflexivity).
+  pose proof (fault_WI (mkWorld m []) c p _ w _ HI Hc1 Hrun) as HW.
+  destruct (fault_OP (mkWorld m []) c p _ w _ HI Hc1 Hrun) as [HO _].
+  assert (Hnl : forall k l, lookup (ACidRef k) m = Some (CLines l) -> ~ In p l).
+  { intros k l Hl Hin. destruct (I2 _ _ Hl) as (_ & _ & Hb). pose proof (Hb _ Hin) as Hb'.
+    cbn [fs] in Hb'. congruence. }
+  rewrite rfs_run_fault in Hrun. unfold c in Hrun. cbn [api] in Hrun.
+  destruct (store_one_off m p b n j Hp) as (M' & R & st' & Hr & Hpost).
+  { intros y Hy. destruct (wt_cidref _ _ _ W Hy) as [l ->]. exists l. split; [reflexivity|].
+    apply (proj2 (memb_false_not_In Nat.eqb nat_eqb_true Nat.eqb_refl p l)). eapply Hnl; eauto. }
+  rewrite Hr in Hrun. destruct R as [u|e']; [discriminate|].
+  inversion Hrun; subst w e'; clear Hrun. destruct Hpost as (P1 & P2 & P3). cbn [fs] in *.
+  split; [reflexivity|]. split; [exact P1|]. split.
+  - intros k l Hl. cbn [fs] in Hl. destruct (Nat.eq_dec k b) as [->|Hk]; [eapply P3; eauto|].
+    rewrite (P2 k Hk) in Hl. eapply Hnl; eauto.
+  - assert (Hsz' : forall x, lookup (AObj b) M' = Some x -> x = CData b n n).
+    { intros x Hx. destruct (HO b x Hx) as [H0|[_ ->]]; [|reflexivity]. apply (Hsz x H0). }
+    destruct (store_object_total_n M' p b n (proj1 HW) P1 Hsz') as (m2 & Hr2 & Q1 & (l & Q2 & Q3) & Q4).
+    exists (mkWorld m2 []), (VMeta b n). split; [exact Hr2|].
+    assert (HW2 : WI (mkWorld m []) p (mkWorld m2 [])).
+    { eapply (followup_call_WI (mkWorld m []) p (mkWorld M' []) c); [exact HW|exact Hc1|exact Hr2]. }
+    rewrite (retr_spec (mkWorld m2 []) p (proj1 HW2)). unfold retr_fun, sem_find, present. cbn [fs].
+    rewrite Q1, Q2, Q3, Q4. cbv beta iota. rewrite Q4. reflexivity.
+Qed.
